@@ -210,7 +210,12 @@ def solve_scipy(
     constraints_violated = False
     max_violation = 0.0
 
-    if result.success and scipy_constraints:
+    # "positive directional derivative" is reported as OPTIMAL below, so the
+    # point it returns needs the same feasibility check as a success
+    converged = result.success or (
+        "positive directional derivative" in result.message.lower()
+    )
+    if converged and scipy_constraints:
         for c in scipy_constraints:
             c_val = c["fun"](result.x)
             # Scaled tolerance based on constraint magnitude
